@@ -931,3 +931,8 @@ M("r4n-revert-F46-cost-sum-unguarded", ["C12", "C04"], "break",
   [("yaep.c", "	      if (*cost > INT_MAX - node->val.anode.cost)\n		node->val.anode.cost = INT_MAX;\n	      else\n		node->val.anode.cost += *cost;", "	      node->val.anode.cost += *cost;")], "R4n")
 M("r4n-guard-other-operand-benign", ["C12", "C04"], "benign",
   [("yaep.c", "	      if (*cost > INT_MAX - node->val.anode.cost)\n		node->val.anode.cost = INT_MAX;\n	      else\n		node->val.anode.cost += *cost;", "	      if (node->val.anode.cost <= INT_MAX - *cost)\n		node->val.anode.cost += *cost;\n	      else\n		node->val.anode.cost = INT_MAX;")])
+M("c03-origin-default-hoisted", ["C05", "C03"], "break",
+  [("yaep.c", "	  found = FALSE;\n	  for (j = 0; j < check_core_symb_vect->transitions.len; j++)", "	  found = FALSE;\n	  check_sit_orig = sit_orig;\n	  for (j = 0; j < check_core_symb_vect->transitions.len; j++)"),
+   ("yaep.c", "		continue;\n	      check_sit_orig = sit_orig;\n	      if (check_sit_ind < check_set_core->n_all_dists)", "		continue;\n	      if (check_sit_ind < check_set_core->n_all_dists)")], "C03-origin-fresh")
+M("c03-origin-default-else-benign", ["C05", "C03"], "benign",
+  [("yaep.c", "		continue;\n	      check_sit_orig = sit_orig;\n	      if (check_sit_ind < check_set_core->n_all_dists)", "		continue;\n	      if (check_sit_ind >= check_set_core->n_all_dists)\n		check_sit_orig = sit_orig;\n	      if (check_sit_ind < check_set_core->n_all_dists)")])
